@@ -1,7 +1,8 @@
 (* C02 — property theorems only. *)
 From Coq Require Import ZArith List Bool Lia.
 From GeosV.Lib Require Import GenPreludePred IM.
-From GeosV.C01 Require Import IMGen IMLaws Pred PredSound.
+From GeosV.C01 Require Import IMGen IMLaws Pred PredSound EnvGen GateGen.
+From GeosV.Lib Require Import GenPreludeGate.
 Import ListNotations.
 Local Open Scope Z_scope.
 
@@ -62,6 +63,26 @@ Proof. intros dA dB eA eB evs Hev HR. repeat split;
   first [apply contains_sound | apply within_sound | apply covers_sound | apply coveredBy_sound | apply crosses_sound | apply overlaps_sound
         | apply touches_sound | apply intersects_sound | apply disjoint_sound | intros; apply equals_sound]; assumption. Qed.
 Print Assumptions C02_named_eq_pattern.
+
+(* the envelope predicates used by the predicate layer are the generated Envelope::covers / intersects / equals / isNull *)
+Theorem C02_envelope_predicates_generated : forall a b,
+  ENV_covers.m_covers_1 (rep a) (rep b) = m_covers_1 a b /\ ENV_intersects.m_intersects_1 (rep a) (rep b) = m_intersects_1 a b /\
+  ENV_equals.m_equals_1 (rep a) (rep b) = m_equals_1 a b /\ ENV_isNull.m_isNull_0 (rep a) = m_isNull_0 a.
+Proof. intros a b. split; [apply gen_env_covers|split; [apply gen_env_intersects|split; [apply gen_env_equals|apply gen_env_isNull]]]. Qed.
+Print Assumptions C02_envelope_predicates_generated.
+
+(* the envelope gate of the protocol model is the generated RelateNG::hasRequiredEnvelopeInteraction *)
+Theorem C02_gate_generated : forall (vt : vtable) (eA eB : envl),
+  RNG_hasRequiredEnvelopeInteraction.m_hasRequiredEnvelopeInteraction_2 (mkRng eA) eB (mkPvt (vt_reqCovers vt) (vt_reqInteraction vt)) = gate vt eA eB.
+Proof. exact gen_gate. Qed.
+Print Assumptions C02_gate_generated.
+
+(* envelope laws: covers => intersects (non-null, well-formed), intersects symmetric, covers transitive, disjoint = not intersects *)
+Theorem C02_env_laws : (forall a b, m_intersects_1 a b = m_intersects_1 b a) /\
+  (forall a b c, m_covers_1 a b = true -> m_covers_1 b c = true -> m_covers_1 a c = true) /\
+  (forall a b, m_disjoint_1 a b = negb (m_intersects_1 a b)).
+Proof. split; [exact env_intersects_sym|split; [exact env_covers_trans|exact env_disjoint_not_intersects]]. Qed.
+Print Assumptions C02_env_laws.
 
 (* converse predicate classes are configured as mirror images of each other *)
 Theorem C02_converse_classes_mirror : forall isA : bool,
